@@ -128,6 +128,36 @@ def _opt_as_ref(m, st, callee, args, t):
     return some(Ref(m._sub(m._sub(args[0].loc, ("as", 1)), 0)))
 
 
+@model("core::option::Option::<T>::take")
+def _opt_take(m, st, callee, args, t):
+    r = args[0]
+    if not isinstance(r, Ref) or r.loc[0] in ("val",):
+        return None
+    old = need_adt(m, st, r, "take")
+    m.store(st, r.loc, none())
+    return old
+
+
+@model("core::mem::replace")
+def _mem_replace(m, st, callee, args, t):
+    r = args[0]
+    if not isinstance(r, Ref) or r.loc[0] in ("val",):
+        return None
+    old = m.load(st, r.loc)
+    m.store(st, r.loc, args[1])
+    return old
+
+
+@model("core::option::Option::<T>::replace")
+def _opt_replace(m, st, callee, args, t):
+    r = args[0]
+    if not isinstance(r, Ref) or r.loc[0] in ("val",):
+        return None
+    old = need_adt(m, st, r, "replace")
+    m.store(st, r.loc, some(args[1]))
+    return old
+
+
 @model("core::bool::<impl bool>::then_some")
 def _then_some(m, st, callee, args, t):
     return some(args[1]) if m.truth(st, args[0]) else none()
